@@ -1381,6 +1381,11 @@ let run_c07 file =
            clauses := List.map c07_clause_name cl @ !clauses;
            detail := Printf.sprintf "%s: first %s, again %s, other process (%s) %s, absolute sources %s, first pass %s" (unhexs t.(1)) (unhexs t.(2)) (unhexs t.(3)) (unhexs t.(7)) (unhexs t.(4)) (unhexs t.(5)) (unhexs t.(6)) :: !detail
          end
+       | "rhost" ->
+         if t.(1) <> t.(2) then begin
+           clauses := "rpm-build-host-is-not-the-one-the-document-fixes" :: !clauses;
+           detail := Printf.sprintf "rpm: BUILDHOST %s, the document says %s" (unhexs t.(2)) (unhexs t.(1)) :: !detail
+         end
        | "rstamp" ->
          incr n_s;
          let cl = check_stamp !allowed (unhex t.(1)) (unhex t.(2)) (zt t.(3)) in
